@@ -20,7 +20,7 @@ import (
 
 // disc is a discrepancy between the real engine and the reference model.
 type disc struct {
-	Kind string // position | code-events | calls | cache | flags | terminate-flag | lang-event | lang-state | page-text | cont | exec-error | flush-error | unexpected-output | panic | over-limit
+	Kind string // stored-unreadable | position | code-events | calls | cache | flags | terminate-flag | lang-event | lang-state | page-text | cont | exec-error | flush-error | unexpected-output | panic | over-limit
 	Step int
 	Msg  string
 	Sub  string // refinement for signatures
@@ -279,7 +279,8 @@ func monitorSession(c *vk.Ctx, a *app.App, cfg app.Config, hist []string, o sess
 		}{{"live", ob.State, ob.Cache}}
 		if pr != nil {
 			if ob.StoredErr != "" {
-				return &disc{Kind: "harness", Step: step, Msg: "stored snapshot unreadable: " + ob.StoredErr}, st
+				// what the request left in the store cannot be loaded: position, flags and every loaded symbol are lost
+				return &disc{Kind: "stored-unreadable", Step: step, Msg: fmt.Sprintf("the stored session cannot be loaded after the request (Finish returned %q): %s", ob.FinishErr, ob.StoredErr)}, st
 			}
 			views = append(views, struct {
 				name string
